@@ -348,6 +348,10 @@ def step (st : St) (ws : List String) : St × List String :=
       | some d, some v => (st.run [.set d (if op == "setinit" then "initializer" else "instance") v], ["ok"])
       | _, _ => bad st
     | _ => bad st
+  else if op == "setdef" then
+    match args.mapM (node? st) with
+    | some [d, m] => (st.run [.set d "definition" (.ref (.node m))], ["ok"])
+    | _ => bad st
   else if op == "settmap" || op == "setfmap" || op == "setresult" then
     match args.mapM (node? st) with
     | some [d, m] => (st.run [.set d (if op == "setresult" then "result" else "mapping") (.ref (.node m))], ["ok"])
